@@ -1,5 +1,11 @@
 --------------------------- MODULE MC_ClientDgram ---------------------------
 EXTENDS ClientDgram
+S2(rt, mr) == DgScript("new", <<Call("set_read_timeout", rt), Call("set_max_retries", mr)>>)
+\* a budget with one retry and two ticks per attempt; no retry at all; the
+\* defaults; values beyond both ends of the ranges
+MCConfs  == {S2(20000, 1), S2(10000, 0), S2(0, 0)}
+MCConfsT == {S2(20000, 2), S2(10000, 0), S2(10000, 1), S2(70000, 0), DgScript("new", <<>>)}
+MaxMr == LET ms == {DgRun(sc).mr : sc \in Confs} IN CHOOSE m \in ms : \A x \in ms : x <= m
 MCFaults == {[kind |-> "none", at |-> 0]}
-            \cup {[kind |-> k, at |-> a] : k \in {"connect", "send", "short"}, a \in 1..(1 + MaxRetries)}
+            \cup {[kind |-> k, at |-> a] : k \in {"connect", "send", "short"}, a \in 1..(1 + MaxMr)}
 =============================================================================
